@@ -541,9 +541,17 @@ func init() {
 			var ls []string
 			name := "json.any"
 			if mi, ok := c.Args[1].(*ssa.MakeInterface); ok {
-				inner := r.unbox(st, v, mi.X.Type())
+				vt := mi.X.Type()
+				inner := r.unbox(st, v, vt)
+				if pt, ok := vt.Underlying().(*types.Pointer); ok {
+					if _, isS := pt.Elem().Underlying().(*types.Struct); isS && !r.eng.opaque(pt.Elem()) {
+						// a pointer to a struct encodes as the struct it points to
+						vt = pt.Elem()
+						inner = st.load(&Loc{T: vt, Obj: inner.S, Ref: inner.S})
+					}
+				}
 				ls = intLeaves(inner)
-				if stt, ok := mi.X.Type().Underlying().(*types.Struct); ok {
+				if stt, ok := vt.Underlying().(*types.Struct); ok {
 					// the JSON member names are part of the function's identity
 					var names []string
 					for i := 0; i < stt.NumFields(); i++ {
@@ -583,4 +591,44 @@ func boolsToInts(ls []string) []string { return ls }
 
 func reflectTag(tag, key string) string {
 	return reflect.StructTag(tag).Get(key)
+}
+
+func init() {
+	ufModel := func(name string) *model {
+		return &model{doc: "uninterpreted function of its arguments", fn: simple(func(r *FnRun, st *State, instr ssa.Instruction, args []*V) *V {
+			rt := resType(instr)
+			var ts, sorts []string
+			for _, a := range args {
+				for _, l := range leavesSorted(a) {
+					ts = append(ts, l[0])
+					sorts = append(sorts, l[1])
+				}
+			}
+			fn := mangle("uf:" + name)
+			r.eng.declare("(declare-fun " + fn + " (" + strings.Join(sorts, " ") + ") Int)")
+			v := vInt(sApp(fn, ts...), rt)
+			if isStringType(rt) {
+				st.strLen(v.S)
+			}
+			return v
+		})}
+	}
+	extModels["(*net/url.URL).String"] = ufModel("url.String")
+	extModels["github.com/hashicorp/go-secure-stdlib/base62.Random"] = &model{doc: "(s, err): on success s has the requested length (randomness and uniqueness are not modelled)", fn: simple(func(r *FnRun, st *State, instr ssa.Instruction, args []*V) *V {
+		c := callCommon(instr)
+		res := r.symResults(st, c.Signature(), "base62")
+		st.assume(sImp(sEq(res[1].Tag, "0"), sEq(st.strLen(res[0].S), args[0].S)))
+		return resultV(st, c.Signature(), res)
+	})}
+	extModels["(*encoding/base64.Encoding).EncodeToString"] = &model{doc: "uninterpreted function of the encoding and the content of the bytes", fn: simple(func(r *FnRun, st *State, instr ssa.Instruction, args []*V) *V {
+		content := sSel(st.comp("bytes#content", 1, "Int"), args[1].Arr)
+		r.eng.declare("(declare-fun |uf:base64| (Int) Int)")
+		return vInt("(|uf:base64| "+content+")", resType(instr))
+	})}
+	extModels["github.com/hashicorp/go-secure-stdlib/strutil.StrListContains"] = &model{doc: "membership of the string in the list", fn: simple(func(r *FnRun, st *State, instr ssa.Instruction, args []*V) *V {
+		l, x := args[0], args[1]
+		q := mangle("q:i")
+		el := sSel(sSel(st.comp("elem:string", 2, "Int"), l.Arr), st.ixTerm(l.Off, q))
+		return vBool("(exists ((" + q + " Int)) (and (<= 0 " + q + ") (< " + q + " " + l.Len + ") (= " + el + " " + x.S + ")))")
+	})}
 }
